@@ -63,6 +63,14 @@ def run(tier):
                 for nm in names:
                     hits[nm] = hits.get(nm, 0) + 1
                     sig = "%s:%s:%s" % (PID, nm, e["desc"].split(" ")[0])
+                    if nm == "GatewayExactLinksPresent":
+                        # the situation of the recorded finding, named in the signature: every missing exact link belongs to a gateway
+                        # entry that lists "*" as well (the row had been stored as wildcard-derived and went with a wildcard cleanup)
+                        po = e["post"]
+                        rows_ = {(g["gw"], g["svc"]) for g in po["gws"]}
+                        missing = [(en["gw"], n, "*" in en["svcs"]) for en in po["tgw"] + po["igw"] for n in en["svcs"] if n != "*" and (en["gw"], n) not in rows_]
+                        if missing and all(w for _, _, w in missing):
+                            sig = "%s:%s[wildcard+exact]" % (PID, nm)
                     if nm in ANY_COMMAND:
                         # the predicate itself names the situation; the command that finally exposes it is incidental
                         sig = "%s:%s" % (PID, nm)
